@@ -110,7 +110,7 @@ PROPS = {
             'technique': 'Kani/CBMC loop-free harnesses over all 2^96 headers / all flag-set pairs against a reference layout written from RFC 1035 4.1.1',
             'text': 'complete proof: parse, peek, write-back and the set/remove/has algebra are checked for every header word, id, count tuple, named opcode/rcode and every pair of flag sets',
             'note': KANI_NOTE + '; Packet-level accessors are thin wrappers over Header (by inspection)'},
-    'C10': {'verus': True, 'kani': ['type_table_all_codes', 'type_mnemonics', 'r1_from_be_bytes_small', 'r1_from_be_bytes_wide', 'r1_to_be_bytes'],
+    'C10': {'standin': ['txt'], 'verus': True, 'kani': ['type_table_all_codes', 'type_mnemonics', 'r1_from_be_bytes_small', 'r1_from_be_bytes_wide', 'r1_to_be_bytes'],
             'technique': 'Verus: per-type ghost encoder/decoder generated from an RFC schema (contracts/schema.py); the real parse/write_to/len bodies are proved against them; Kani for the IANA type-code table',
             'text': 'proof for all inputs for the straight-line types: parse reads exactly the RFC layout (wf_dec), write_to emits exactly the RFC encoding (wf_enc), len equals its size; TXT OPT IPSECKEY NSAP NULL are proved against hand-written RFC specs (lists as code-length-value / length-value relations); for SVCB and NSEC only the parsers are proved (writers use BTreeMap iteration / sort_by: assumed). CharacterString::new / TryFrom<&str> are proved to refuse more than 255 bytes',
             'note': VERUS_NOTE + '; ' + KANI_NOTE},
